@@ -21,6 +21,10 @@ Case families (all enumerated completely, see enumerate_cases):
   ycfg   application container given as its own YAML configuration (the segment builds it itself)
   nohdr  application container absent (boot header only)                       -> layout clauses only
   cli    `nxpimage bootable-image merge / parse` (with and without -m) through click's CliRunner per representative
+  content  content variants the segment types accept besides the canonical one, one segment at a time with everything
+         else present, at initial offset 0 and at a later start offset: FCB in swapped byte order (tag CFBF, every byte
+         pair swapped), FCB / key blob / key store / BEE header ending in runs of 0x00 and 0xFF, every XMCD variant
+         with all bits of its configuration block seeded (reserved bits set)
 
 Oracle clauses: see CLAUSES.  What is judged when: `legal` (valid segments that fit + application) => merge must
 succeed, layout clauses, parse must succeed and return every segment, mem_type=None too; slot payloads of odd size
@@ -53,6 +57,7 @@ CLAUSES = {
     "C14.parse-raises": "BootableImage.parse(export, family, mem_type) raises on an image merged from valid segments",
     "C14.parse-missing-segment": "a supplied segment is not returned by parse",
     "C14.parse-segment-bytes": "parse returns other bytes for a segment than were supplied",
+    "C14.parse-reexport": "export() of the object returned by parse differs from the merged image although every segment came back unchanged",
     "C14.auto-detect-fails": "parse with mem_type=None raises although parse with the memory type succeeds",
     "C14.auto-segment-bytes": "parse with mem_type=None selects the memory type the image was built for and returns other bytes",
     "C14.cli": "nxpimage bootable-image merge / parse disagrees with the layout model / the supplied segments",
@@ -62,6 +67,8 @@ CLAUSES = {
 CFG_KEY = {"fcb_xspi": "fcb", "image_version_ap": "image_version"}  # configuration-file keys (template of the tool)
 SLOT_RAW = ("keyblob", "keystore", "bee_header_0", "bee_header_1")
 SLOT_FCB = ("fcb", "fcb_xspi")
+# content variants of a segment (besides the canonical one) -> label used in discriminators
+VARIANT_LABEL = {"swp": "byte-swapped", "pad": "trailing-patterns", "xr": "all-bits-seeded"}
 
 _SEED = 0
 _CACHE: dict = {}
@@ -366,11 +373,26 @@ def component(name: str, spec: Any, case: dict, td: str, seed: int):
         value = spec[1]
         return BL.encode_image_version(name, value), value, "valid"
     if name in SLOT_RAW:
-        size = BL.FIXED_SIZE[name] if spec == "fix" else int(spec)
+        fixed = BL.FIXED_SIZE[name]
+        if spec == "pad":  # content that ends in runs of both padding patterns (nothing may be stripped or re-filled)
+            data = raw_bytes(seed, f"{name}|pad", fixed // 2) + b"\xff" * (fixed // 4) + bytes(fixed - fixed // 2 - fixed // 4)
+            return data, put(data), "valid"
+        size = fixed if spec == "fix" else int(spec)
         data = raw_bytes(seed, f"{name}|{size}", size)
-        return data, put(data), "valid" if size == BL.FIXED_SIZE[name] else "odd"
+        return data, put(data), "valid" if size == fixed else "odd"
     if name in SLOT_FCB:
         fixed = BL.FIXED_SIZE[name]
+        if spec in ("swp", "pad"):
+            data = b"FCFB" + raw_bytes(seed, f"{name}|{fixed}", fixed)[4:]
+            if spec == "pad":  # like real blocks: configuration words in front, the rest of the block zero / erased
+                data = data[:fixed // 4] + bytes(fixed // 2) + b"\xff" * (fixed - fixed // 4 - fixed // 2)
+                return data, put(data), "valid"
+            # the block as it is programmed for flashes read in octal DTR mode: every byte pair swapped (tag 'CFBF').
+            # The segment type accepts this form next to the canonical one; a parser is not obliged to (quality "alt"),
+            # but what it hands back must be the supplied bytes
+            sw = bytearray(data)
+            sw[0::2], sw[1::2] = data[1::2], data[0::2]
+            return bytes(sw), put(bytes(sw)), "alt"
         size = fixed if spec == "fix" else int(spec)
         data = (b"FCFB" + raw_bytes(seed, f"{name}|{size}", max(size, 4))[4:])[:size]
         # shorter than the block: not an FCB at all (no parser is obliged to take it); longer: a valid block + tail
@@ -380,6 +402,9 @@ def component(name: str, spec: Any, case: dict, td: str, seed: int):
         if key not in _CACHE:
             _CACHE[key] = build_xmcd(fam, rev, spec[1])
         data = _CACHE[key]
+        if spec[0] == "xr":  # same header, every bit of the configuration block (reserved ones included) seeded
+            data = data[:4] + core.seeded_bytes(seed, f"xmcd|{spec[1]}", len(data) - 4)
+            return data, put(data), "alt"
         return data, put(data), "valid"
     # application containers
     kind = spec[0]
@@ -525,7 +550,7 @@ def run_case(case: dict, seed: int) -> dict:
         # a configuration the property covers completely: valid segments that fit, application present
         legal = qs <= {"valid"} and app_present and not overlaps
         # if the parser returns, its answer is judged (slot payloads of odd size leniently)
-        judged = qs <= {"valid", "odd"} and app_present and not overlaps
+        judged = qs <= {"valid", "odd", "alt"} and app_present and not overlaps
         # ---- merge
         image: Optional[bytes] = None
         image_full: Optional[bytes] = None
@@ -553,7 +578,7 @@ def run_case(case: dict, seed: int) -> dict:
                 viol.append(("C14.merge-rejects-legal", f"{type(e).__name__}@{_site(e)}", f"{e}"[:300]))
             elif overlaps:
                 count["overlap-rejected"] = 1
-            elif qs <= {"valid", "odd"}:
+            elif qs <= {"valid", "odd", "alt"}:
                 # a slot payload of another size than the slot that still ends before the next prescribed offset: a builder
                 # may have a policy about slot sizes, but it cannot claim an overlap where the intervals are disjoint
                 if type(e).__name__ == "SPSDKOverlapError":
@@ -639,24 +664,51 @@ def _parse_clauses(case: dict, lay: BL.Layout, placed: list, image: bytes, io: i
     obliged = legal and recognisable
     judged = judged and recognisable
     expected = {p.name: p.data for p in placed}
+    exact = [True]  # every segment came back byte for byte (no slot padding / truncation)
+
+    def tag(name: str) -> str:
+        """segment name + content variant (part of the discriminators)"""
+        spec = case["sup"].get(name)
+        v = VARIANT_LABEL.get(spec if isinstance(spec, str) else (spec[0] if isinstance(spec, list) else None))
+        return f"{name}[{v}]" if v else name
 
     def compare(got: dict, clause_missing: str, clause_bytes: str) -> bool:
         ok = True
         for name, data in expected.items():
             if name not in got:
-                viol.append((clause_missing, f"{name}:{cutkind}", f"{name} ({len(data)} bytes supplied) is not among {sorted(got)}"))
+                viol.append((clause_missing, f"{tag(name)}:{cutkind}", f"{name} ({len(data)} bytes supplied) is not among {sorted(got)}"))
                 ok = False
                 continue
             verdict = BL.compare_segment(name, data, got[name], lay.fill)
             if verdict == "differs":
                 m = min(len(data), len(got[name]))
                 d = next((i for i in range(m) if data[i] != got[name][i]), m)
-                viol.append((clause_bytes, f"{name}:{cutkind}", f"{name}: supplied {len(data)} bytes, returned {len(got[name])} bytes, "
+                viol.append((clause_bytes, f"{tag(name)}:{cutkind}", f"{name}: supplied {len(data)} bytes, returned {len(got[name])} bytes, "
                              f"first difference at {d:#x}"))
                 ok = False
             elif verdict != "equal":
+                exact[0] = False
                 count[f"parse-slot-{verdict}"] = count.get(f"parse-slot-{verdict}", 0) + 1
         return ok
+
+    def reexport(p) -> None:
+        """merge -> parse -> export has to reproduce the merged image (the segments came back unchanged and the
+        offsets are the device's, so anything else means the parsed object holds other bytes than it reports)"""
+        try:
+            again = p.export()
+        except (core.Watchdog, core.HarnessError):
+            raise
+        except Exception as e:  # noqa
+            viol.append(("C14.parse-reexport", f"raises:{type(e).__name__}@{_site(e)}:{cutkind}", f"{type(e).__name__}: {e}"[:200]))
+            return
+        if again == image:
+            count["reexport-ok"] = 1
+            return
+        m = min(len(again), len(image))
+        d = next((i for i in range(m) if again[i] != image[i]), m)
+        where = next((tag(q.name) for q in placed if q.start <= d < q.end), "length" if d == m else "gap")
+        viol.append(("C14.parse-reexport", f"{where}:{cutkind}", f"export() of the parsed image has {len(again)} bytes, the merged image "
+                     f"{len(image)}; first difference at {d:#x}"))
 
     explicit_ok = False
     try:
@@ -668,6 +720,8 @@ def _parse_clauses(case: dict, lay: BL.Layout, placed: list, image: bytes, io: i
             explicit_ok = compare(got, "C14.parse-missing-segment", "C14.parse-segment-bytes")
             if explicit_ok:
                 count["parse-judged-ok"] = 1
+                if exact[0] and p.init_offset == io:
+                    reexport(p)
         else:
             same = all(BL.compare_segment(n, d, got.get(n, b""), lay.fill) != "differs" for n, d in expected.items())
             count["parse-not-judged-" + ("same" if same else "other")] = 1
@@ -864,7 +918,7 @@ def split_segments(lay: BL.Layout) -> tuple:
 
 
 def enumerate_cases(tier: str, triples: list, reps: dict) -> dict:
-    fam_cases: dict = {"base": [], "cli": [], "sub": [], "size": [], "set": [], "round": [], "ycfg": [], "nohdr": []}
+    fam_cases: dict = {"base": [], "cli": [], "content": [], "sub": [], "size": [], "set": [], "round": [], "ycfg": [], "nohdr": []}
     quick = tier == "quick"
     # ---- base: every triple
     for (f, r, m) in triples:
@@ -908,6 +962,25 @@ def enumerate_cases(tier: str, triples: list, reps: dict) -> dict:
                     fam_cases["set"].append(dict(T, sup=sup, io=io, api="set"))
                     if not quick or len(sub) == len(opt):
                         fam_cases["set"].append(dict(T, sup=sup, io=io, api="setn"))
+            # content variants the segment types accept besides the canonical one (everything else present), at initial
+            # offset 0 and at the latest recognisable start offset that still contains the segment
+            for name in opt:
+                if name in SLOT_FCB:
+                    alts = ["swp", "pad"]
+                elif name in SLOT_RAW:
+                    alts = ["pad"]
+                elif name == "xmcd":
+                    alts = [["xr", i] for i in range(len(xmcd_variants(f, r)))]
+                else:
+                    continue
+                later = [o for o in lay.start_offsets() if o <= lay.offsets[name]]
+                for alt in alts:
+                    sup = {n: default_spec(n, f, r, m) for n in lay.order}
+                    sup[name] = alt
+                    for io in [0] + later[-1:]:
+                        fam_cases["content"].append(dict(T, sup=sup, io=io))
+                    if not quick:
+                        fam_cases["content"].append(dict(T, sup={app: default_spec(app, f, r, m), name: alt}, io=0))
             # requested initial offsets between / behind the prescribed ones (rounded up / refused)
             sup = {n: default_spec(n, f, r, m) for n in lay.order}
             for o in lay.static_offsets():
@@ -987,7 +1060,7 @@ def enumerate_cases(tier: str, triples: list, reps: dict) -> dict:
         for name, cases in fam_cases.items():
             for c in cases:
                 n_all = len(db_entry(c["f"], c["r"], c["m"])["segments"])
-                if name == "cli" or (name == "base" and len(c["sup"]) == n_all and c["r"] == latest_rev(c["f"])):
+                if name in ("cli", "content") or (name == "base" and len(c["sup"]) == n_all and c["r"] == latest_rev(c["f"])):
                     continue
                 c["auto"] = 0
     # remove duplicates (same case reached from two families of the enumeration), keep order
@@ -1154,7 +1227,8 @@ def run(ctx: core.Ctx) -> None:
         "single optional segment, all segments} at initial offset 0 + all segments cut at every recognisable start offset; per "
         "layout-class representative (%d per class; class key = segment map, fill pattern and the database facts of the segment "
         "types): sub = ALL subsets of optional segments x ALL initial offsets {0, every prescribed offset} x every container kind; "
-        "set = the same through the init_offset setter / set_init_offset(segment); round = requested offsets one byte below/above "
+        "content = per segment type the accepted non-canonical contents (byte-swapped FCB, trailing 0x00/0xFF runs, XMCD with "
+        "all bits seeded) at offset 0 and a later start offset; set = the same through the init_offset setter / set_init_offset(segment); round = requested offsets one byte below/above "
         "every prescribed offset; size = one segment departing to {1, fixed-1, fixed+1, gap-1, gap, gap+1} "
         "(slot segments), every XMCD variant, image-version values, container size classes x floating successor; ycfg = container "
         "given as YAML configuration; nohdr = no application; cli = nxpimage merge/parse.  A case is distinct/non-trivial when the "
